@@ -315,3 +315,48 @@ def run_histories(rng, n, steps=12, hostile=False, observer=None):
         H = TierHistory(rng, h % 2 == 0, observer, hostile=hostile)
         for _ in range(steps):
             H.step()
+
+
+class RefusedEditFrame:
+    """history-level clause shared by the tier-operation properties: they are stated over tiers "reachable by histories", and a
+    history may contain edits the library refused.  A refused insertEntry / deleteEntry must leave the tier as it was - otherwise every
+    later operation of the history starts from a tier nobody built."""
+
+    def __init__(self, prop):
+        self.prop = prop
+
+    def before(self, op, recv, args, pool):
+        from vmon import snap
+
+        self.s = snap.tier_snap(recv) if op in ("insertEntry", "deleteEntry") and snap.is_tier(recv) else None
+        self.args = snap.any_snap(list(args))
+
+    def after(self, op, recv, args, res, exc, pool):
+        from vmon import snap
+        from vmon.core import REC
+
+        if self.s is None or exc is None:
+            return
+        now = snap.tier_snap(recv)
+        case = {"call": "refused-edit", "op": op, "tier": self.s, "args": self.args}
+        if now != self.s:
+            REC.violation(self.prop, "history.refused-edit", op, case, "%s raised %s but changed the tier that the rest of the history operates on: %r -> %r" % (
+                op, type(exc).__name__, self.s["entries"], now["entries"]), ("refused-edit", op), {"op": op, "refused_edit": True})
+        else:
+            REC.held("history.refused-edit", ("refused-edit", op, type(exc).__name__), None, None)
+
+
+def replay_refused_edit(v):
+    from vmon import snap
+
+    c = v["case"]
+    t = snap.build_tier(c["tier"])
+    obs = RefusedEditFrame(v["property"])
+    args = tuple(tuple(a) if isinstance(a, list) else a for a in c["args"])
+    obs.before(c["op"], t, args, [])
+    exc = None
+    try:
+        getattr(t, c["op"])(*args)
+    except Exception as e:
+        exc = e
+    obs.after(c["op"], t, args, None, exc, [])
